@@ -168,9 +168,21 @@ FUNC_SYNONYM = {
 }
 
 
+#: positional parameter order of numpy / numpy.random.Generator calls that the repository spells both positionally and by keyword
+KNOWN_SIGNATURES = {
+    "choice": ["a", "size", "replace", "p"], "integers": ["low", "high", "size"], "uniform": ["low", "high", "size"], "random": ["size"], "normal": ["loc", "scale", "size"],
+    "round": ["a", "decimals"], "clip": ["a", "a_min", "a_max"], "repeat": ["a", "repeats", "axis"], "searchsorted": ["a", "v", "side"],
+    "mean": ["a", "axis"], "sum": ["a", "axis"], "min": ["a", "axis"], "max": ["a", "axis"], "std": ["a", "axis"], "var": ["a", "axis"], "argsort": ["a", "axis"],
+    "pow": ["x1", "x2"], "transpose": ["a", "axes"], "concatenate": ["arrays", "axis"], "zeros": ["shape", "dtype"], "ones": ["shape", "dtype"], "full": ["shape", "fill_value", "dtype"],
+    "rfft": ["a", "n", "axis"], "diff": ["a", "n", "axis"], "argmax": ["a", "axis"], "argmin": ["a", "axis"], "arange": ["start", "stop", "step"],
+}
+
+
 class Normaliser:
     """Normalises scalar expressions of one function; locals are inlined through `env`."""
 
+    #: optional hook: resolved parameter names (positional order, without self) of the repository function a call reaches; set by util.normaliser
+    signature = None
     #: qualified name of a record class (NamedTuple / dataclass that only bundles values) -> its fields in order; set by util.normaliser
     records: dict[str, list[str]] = {}
 
@@ -343,6 +355,28 @@ class Normaliser:
                 name = f"{self.rat(fn.value)}.{fn.attr}"
         else:
             name = ast.unparse(fn)
+        # keyword spelling of positional parameters: `choice(a=x, size=1)` reads as `choice(x, 1)`, `np.round(v, decimals=p)` as `np.round(v, p)`; for repository
+        # callees the parameter order comes from the resolved definition (signature hook), for well-known numpy / Generator calls from a small table
+        sig = None
+        if self.signature is not None:
+            sig = self.signature(e)
+        if sig is None:
+            short = name.rsplit(".", 1)[-1] if isinstance(name, str) else ""
+            sig = KNOWN_SIGNATURES.get(short)
+            if sig is not None and name in FUNC_SYNONYM.values() and args and args[0] is getattr(fn, "value", None):
+                pass  # method spelling: the receiver already sits in position 0
+        if sig is not None and kws and not any(isinstance(a, ast.Starred) for a in args):
+            recv_shift = 1 if (isinstance(fn, ast.Attribute) and args and args[0] is fn.value) else 0
+            names = list(sig)[max(0, 1 - recv_shift) if False else 0:]
+            if recv_shift and names and names[0] not in ("a", "x", "arr", "self"):
+                names = ["<recv>", *names]
+            moved = True
+            while moved:
+                moved = False
+                nxt = len(args)
+                if nxt < len(names) and names[nxt] in kws:
+                    args = [*args, kws.pop(names[nxt])]
+                    moved = True
         if name in self.records and not any(isinstance(a, ast.Starred) for a in args) and len(args) <= len(self.records[name]):
             # constructor of a record: remember which value sits in which field, so that `Rec(..).f` / `Rec(..)[i]` read as that value
             fields = self.records[name]
